@@ -174,13 +174,14 @@ func norm(x interface{}) interface{} {
 // ---------------------------------------------------------------- pipelines
 
 type PipeCfg struct {
-	NS       int     `json:"ns"`
-	Cap      int     `json:"cap"`
-	Items    []int   `json:"items"`
-	Expected []int   `json:"expected"`
-	Mode     string  `json:"mode"` // range | recvexpr | recvok
-	Elem     string  `json:"elem"` // int64 | float64 | interface | string
-	GoArgs   bool    `json:"goargs"` // stage input channel handed over as a go-call argument evaluated from a channel receive
+	NS       int    `json:"ns"`
+	Cap      int    `json:"cap"`
+	Items    []int  `json:"items"`
+	Expected []int  `json:"expected"`
+	Mode     string `json:"mode"`   // range | recvexpr | recvok
+	Elem     string `json:"elem"`   // int64 | float64 | interface | string
+	GoArgs   bool   `json:"goargs"` // stage input channel handed over as a go-call argument evaluated from a channel receive
+	Shape    string `json:"shape"`  // how the shared stage function takes its arguments: "" (3 parameters) | "fn5" (5 parameters) | "fnvar" (variadic)
 }
 
 func pipeScript(c PipeCfg) string {
@@ -193,8 +194,23 @@ func pipeScript(c PipeCfg) string {
 		items[i] = strconv.Itoa(v)
 	}
 	fmt.Fprintf(&b, "producer = func() {\n for v in [%s] {\n  c0 <- v\n }\n close(c0)\n}\n", strings.Join(items, ", "))
-	b.WriteString("stage = func(tag, inch, outch) {\n for v in inch {\n  outch <- v + 10\n }\n close(outch)\n}\n")
-	if c.GoArgs {
+	switch c.Shape {
+	case "fn5":
+		b.WriteString("stage = func(tag, inch, outch, inc, zero) {\n for v in inch {\n  outch <- v + inc + zero\n }\n close(outch)\n}\n")
+	case "fnvar":
+		b.WriteString("stage = func(tag, rest...) {\n for v in rest[0] {\n  rest[1] <- v + rest[2]\n }\n close(rest[1])\n}\n")
+	default:
+		b.WriteString("stage = func(tag, inch, outch) {\n for v in inch {\n  outch <- v + 10\n }\n close(outch)\n}\n")
+	}
+	if c.Shape == "fn5" || c.Shape == "fnvar" {
+		for k := 1; k <= c.NS; k++ {
+			if c.Shape == "fn5" {
+				fmt.Fprintf(&b, "go stage(%d, c%d, c%d, 10, 0)\n", k, k-1, k)
+			} else {
+				fmt.Fprintf(&b, "go stage(%d, c%d, c%d, 10)\n", k, k-1, k)
+			}
+		}
+	} else if c.GoArgs {
 		// the go call's arguments come from probe calls: they must be evaluated exactly once, before the goroutine starts
 		for k := 1; k <= c.NS; k++ {
 			fmt.Fprintf(&b, "go stage(pv(%d, %d), c%d, c%d)\n", 100+k, k, k-1, k)
